@@ -35,7 +35,6 @@ package parser
 
 // literal tokens carry their delimiters (established by the lexer, needed to strip them safely)
 
-
 // termination measure of the parser (C09): the bytes the lexer has not read yet plus the look-ahead tokens that are
 // not the end token.  Reading a token other than the end token moves the lexer forward, so shifting a token that is
 // not the end token lowers the measure; ppos + measure never grows while tokens other than the end token are consumed,
